@@ -84,6 +84,20 @@ let build kind elem path (rest : string list) : obj =
   | "qv" ->
     (match path with
      | "default" -> Qv qvb_new
+     | h when String.length h > 5 && String.sub h 0 5 = "hist:" ->
+       (* a push / extend history on the builder: p<k> = k pushes, e<k> = one extend of k values *)
+       let toks = List.filter (fun t -> t <> "") (String.split_on_char ',' (String.sub h 5 (String.length h - 5))) in
+       let rec take k l = if k = 0 then ([], l) else (match l with [] -> ([], []) | x :: r -> let (a, b) = take (k - 1) r in (x :: a, b)) in
+       let rec go b toks vs = match toks with
+         | [] -> Val b
+         | t :: rest ->
+           let k = int_of_string (String.sub t 1 (String.length t - 1)) in
+           let (now, later) = take k vs in
+           if t.[0] = 'p' then
+             (let rec pushes b l = match l with [] -> Val b | x :: r -> (match qvb_push b (as_u8 x) with Val b' -> pushes b' r | Fault e -> Fault e) in
+              match pushes b now with Val b' -> go b' rest later | Fault e -> Fault e)
+           else (match qvb_extend b now with Val b' -> go b' rest later | Fault e -> Fault e) in
+       of_outcome (fun q -> Qv q) (go qvb_new toks (List.map z_of_string (vals ())))
      | _ -> of_outcome (fun q -> Qv q) (qv_from_iter (List.map z_of_string (vals ()))))
   | "rsq256" | "rsq512" ->
     let b = n_of_int (if kind = "rsq256" then 256 else 512) in
